@@ -20,7 +20,8 @@ RULE = (
     "Hypothesis-generated PipeLang programs x stage list = prefix of [analysis, store_inspect, eval, store_commit, "
     "path_commit] of length 0..5 spelled as lower/upper/mixed-case names or ProcessingStage members x store {memory, local, "
     "local+LRU} x history {fresh store, after a full evaluation of an earlier version of the program, restricted run "
-    "repeated twice}; one case in six is a pipeline that loads a path produced by an earlier evaluation, and in some runs that include "
+    "repeated twice, after a restricted run of the same process that asked for more stages}; in one case in four a tracked variable is assigned in the "
+    "running process between the restricted run and the later full evaluation; one case in six is a pipeline that loads a path produced by an earlier evaluation, and in some runs that include "
     "the eval stage a user function raises (preferably after other kept work has completed). Checked: whatever the store kind, every kept "
     "path serves through dds.load exactly what it served before a run without 'path_commit';  prefixes without 'eval' run no user code, store no blob, commit no path, leave the store "
     "directories byte-identical and return None; prefixes with 'eval' but without 'path_commit' commit no path and leave the "
@@ -53,11 +54,15 @@ def case_strategy(opts):
         n = draw(st.sampled_from([0, 1, 1, 2, 2, 3, 3, 4, 4, 5]))
         spell = draw(st.sampled_from(["lower", "upper", "mixed", "enum"]))
         kind, cache = draw(st.sampled_from(STORES))
-        history = draw(st.sampled_from(["fresh", "after_old", "after_old", "twice"]))
+        history = draw(st.sampled_from(["fresh", "after_old", "after_old", "twice", "after_longer"]))
         old = prog
         for _ in range(draw(st.integers(1, 2))):
             old = M.apply_edit(old, draw(G.edits(old, root, kinds=["setvar", "bump", "setlit"], opts=opts)))
         case = {"prog": prog, "old": old, "root": root, "nstages": n, "spell": spell, "store": [kind, cache], "history": history}
+        if pre_entry is None and prog["vars"] and draw(st.integers(0, 3)) == 0:
+            # between the restricted run and the later full evaluation a tracked variable is assigned in the running process
+            # (no module is reloaded: every function object stays the same)
+            case["live_edit"] = draw(G.edits(prog, root, kinds=["setvar"], opts=opts))
         if pre_entry is not None:
             case["pre_entry"] = pre_entry
         elif n in (3, 4) and draw(st.integers(0, 2)) == 0:
@@ -136,6 +141,11 @@ def run_history(case, scratch, with_restricted):
             sess.write(prog)
             sess.start()
         produce(prog)
+        if case["history"] == "after_longer":
+            # an earlier restricted evaluation of the same process asked for MORE stages (everything but the path commit)
+            r = eval_with_stages(sess, root, STAGES[:4])
+            if r["exc"] is not None:
+                raise Violation(f"restricted evaluation {STAGES[:4]} raised {r['exc']['type']}: {r['exc']['msg'][:200]}", case)
         stages = spell_stages(case["nstages"], case["spell"])
         all_paths = sorted({s_["path"] for p_ in (prog, case["old"]) for s_ in M.kept_sites(p_, root)} | ({"/src/v"} if pre is not None else set()))
         if with_restricted:
@@ -153,6 +163,11 @@ def run_history(case, scratch, with_restricted):
                 out["data_unchanged"] = data_before == data_after
                 out["paths_changed"] = sorted(p for p in all_paths if paths_before.get(p) != paths_after.get(p))
                 judge_restricted(case, r, out, rep)
+        if case.get("live_edit"):
+            cur = M.apply_edit(prog, case["live_edit"])
+            v = cur["vars"][case["live_edit"][1]]
+            sess.write(cur)
+            sess.w.call("call", module="vf.harness.worker", func="cmd_setvar", args=[M.modname(cur, v["mod"]), v["name"], M.dec(v["val"])])
         full = sess.eval(root, "eval")
         out["full"] = full
         out["loads"] = {}
@@ -203,7 +218,8 @@ def check_case(case, ev=None, scratch=None):
         if case.get("pre_entry") is not None:
             _, itp = M.expected_value(case["prog"], case["pre_entry"])
             committed = dict(itp.kept)
-        exp, _ = M.expected_value(case["prog"], case["root"], committed=committed)
+        final_prog = M.apply_edit(case["prog"], case["live_edit"]) if case.get("live_edit") else case["prog"]
+        exp, _ = M.expected_value(final_prog, case["root"], committed=committed)
         if a["full"]["value"] != exp:
             raise Violation(f"{what}: full evaluation after the restricted run returned {a['full']['value']!r}, expected {exp!r}", case)
         if a["full"]["sigs"] != b["full"]["sigs"]:
@@ -222,7 +238,7 @@ def check_case(case, ev=None, scratch=None):
                      "program": c01.slim({"prog": case["prog"], "store": None, "steps": []})["program"]},
                     len(sites) >= 2 and case["history"] != "fresh",
                     features=[f"nstages{case['nstages']}", "spell:" + case["spell"], "history:" + case["history"], "store:" + case["store"][0]]
-                    + (["loads-earlier-path"] if case.get("pre_entry") is not None else []) + (["user-failure-in-restricted-run"] if a.get("restricted", {}).get("exc") else []),
+                    + (["loads-earlier-path"] if case.get("pre_entry") is not None else []) + (["live-variable-edit-before-full-run"] if case.get("live_edit") else []) + (["user-failure-in-restricted-run"] if a.get("restricted", {}).get("exc") else []),
                     key=[M.pkey(case["prog"]), case["nstages"], case["spell"], case["history"], case["store"]])
     finally:
         if own:
